@@ -12,6 +12,7 @@ package c04
 import (
 	"bytes"
 	"fmt"
+	"net"
 	"strings"
 	"testing"
 	"time"
@@ -273,6 +274,76 @@ func run(e *core.Env) {
 		w.cleanupAttempt(a1)
 		w.cleanupAttempt(a2)
 		e.Probe("simultaneous_dial")
+	}
+
+	// ---- both routers are the dialling end of one connection (no faults) ----
+	// A TCP simultaneous open, or a relay that joins two outgoing dials: each end runs the
+	// client role and receives the other's request as the first message. Whatever they make of
+	// it - abort (what the shipped code does: neither finds the key exchange it waits for) or
+	// complete - a link that both hold afterwards must carry traffic.
+	if w.compat && tp.Chance(1, 4) {
+		time.Sleep(time.Second + time.Duration(tp.Intn(2000))*time.Millisecond)
+		pair := w.cn.NewPair("both-dial")
+		ends := []net.Conn{pair.A, pair.B}
+		for i := 0; i < 2; i++ {
+			i := i
+			go func() {
+				defer func() { _ = recover() }()
+				_, _ = w.S[i].Node.Peering.VerifSetupLink(ends[i], w.S[1-i].URL, true)
+			}()
+		}
+		simnet.Wait()
+		for guard := 0; guard < 200; guard++ {
+			hs := w.cn.Heads()
+			if len(hs) == 0 {
+				break
+			}
+			w.cn.Deliver(hs[tp.Intn(len(hs))])
+		}
+		simnet.Wait()
+		for i := 0; i < 2; i++ {
+			if len(w.S[i].Node.PanicAlerts()) > 0 {
+				e.Fail("worker-panic:both-ends-dialled", "%s: worker panicked when both routers ran the dialling role on one connection", w.desc)
+			}
+		}
+		for i := 0; i < 2; i++ {
+			l := w.S[i].Node.Peering.GetLink(w.S[1-i].Node.IP)
+			lo := w.S[1-i].Node.Peering.GetLink(w.S[i].Node.IP)
+			if l == nil || lo == nil || l.IsClosing() || lo.IsClosing() {
+				continue
+			}
+			e.Probe("both_dialling_ends_registered_links")
+			payload := tp.Bytes(1 + tp.Intn(300))
+			f, err := w.S[i].Node.Inst.Builder.NewFrameV1(w.S[i].Node.IP, w.S[1-i].Node.IP, frame.RouterPing, nil, payload, nil)
+			if err != nil {
+				e.Infra("frame: %v", err)
+			}
+			want, _ := f.FrameDataWithMargins(0, 0)
+			want = append([]byte(nil), want...)
+			_ = l.Send(f)
+			simnet.Wait()
+			w.cn.DrainFIFO(tp, 100)
+			simnet.Wait()
+			got := w.S[1-i].Drain()
+			if len(got) == 1 && bytes.Equal(got[0].Data, want) {
+				continue
+			}
+			if w.S[i].Node.Peering.GetLink(w.S[1-i].Node.IP) == l && w.S[1-i].Node.Peering.GetLink(w.S[i].Node.IP) == lo && !l.IsClosing() && !lo.IsClosing() {
+				e.Fail("traffic-after-handshake-not-delivered-intact/both-ends-dialled", "%s: both routers ran the dialling role on one connection and both registered a link, but a frame sent by %s arrived %d times", w.desc, w.S[i].Node.Name, len(got))
+			}
+		}
+		w.S[0].Drain()
+		w.S[1].Drain()
+		for i := 0; i < 2; i++ {
+			if l := w.S[i].Node.Peering.GetLink(w.S[1-i].Node.IP); l != nil {
+				l.Close(nil)
+			}
+		}
+		_ = pair.A.Close()
+		_ = pair.B.Close()
+		simnet.Wait()
+		w.cn.DrainFIFO(tp, 100)
+		e.Probe("both_ends_dial_on_one_connection")
 	}
 
 	// ---- faulted attempts ----
